@@ -179,6 +179,65 @@ def announceC {V E : Type} [DecidableEq E] (o : Oracle V E) (caught : CbOutcome 
     if runCallbacks caught cbs then ⟨e', some (mkMsg e')⟩ else ⟨e', none⟩
   else ⟨storeValue e r, none⟩
 
+/-! ### callbacks that re-enter the funnel of another parameter (`registerCallbacks`: `update_<param>` of a
+following module assigning its own parameter, or `autoupdate` → `modobj.announceUpdate(pname, value, err)`) -/
+
+/-- the nested call a callback makes: parameter (of the follower), the time stamp it works with, the resolved
+value-or-error and the outcomes of the follower parameter's own callbacks (which do not re-enter: depth 1) -/
+structure Nested (V E : Type) where
+  q : Nat
+  now : Int
+  r : VE V E
+  cbs : List CbOutcome
+  deriving Repr
+
+/-- what one callback does: possibly a nested call, then how it ends -/
+structure Cb (V E : Type) where
+  nested : Option (Nested V E)
+  oc : CbOutcome
+  deriving Repr
+
+def setE {V E : Type} (es : Nat → Entry V E) (p : Nat) (e : Entry V E) : Nat → Entry V E :=
+  fun q => if q = p then e else es q
+
+structure CbRun (V E : Type) where
+  es : Nat → Entry V E
+  msgs : List (Nat × Msg V E)
+  completed : Bool
+
+/-- the nested call of one callback (a callback re-entering the parameter that is being announced is not modelled) -/
+def nestedCall {V E : Type} [DecidableEq E] (o : Oracle V E) (caught : CbOutcome → Bool) (p : Nat)
+    (es : Nat → Entry V E) : Option (Nested V E) → (Nat → Entry V E) × List (Nat × Msg V E)
+  | none => (es, [])
+  | some n =>
+    if n.q = p then (es, []) else
+    let out := announceC o caught (es n.q) n.now n.r n.cbs
+    (setE es n.q out.entry, out.msg.toList.map (fun m => (n.q, m)))
+
+/-- the callback loop of a call on parameter `p` over the entries of all parameters -/
+def runCbs {V E : Type} [DecidableEq E] (o : Oracle V E) (caught : CbOutcome → Bool) (p : Nat) :
+    (Nat → Entry V E) → List (Cb V E) → CbRun V E
+  | es, [] => ⟨es, [], true⟩
+  | es, cb :: rest =>
+    let n := nestedCall o caught p es cb.nested
+    if caught cb.oc then
+      let r := runCbs o caught p n.1 rest
+      ⟨r.es, n.2 ++ r.msgs, r.completed⟩
+    else ⟨n.1, n.2, false⟩
+
+structure MOut (V E : Type) where
+  es : Nat → Entry V E
+  msgs : List (Nat × Msg V E)        -- in the order the dispatcher is told
+
+/-- `announceUpdate` on parameter `p` with callbacks that may call the funnel of other parameters -/
+def announceM {V E : Type} [DecidableEq E] (o : Oracle V E) (caught : CbOutcome → Bool) (es : Nat → Entry V E)
+    (p : Nat) (now : Int) (r : VE V E) (cbs : List (Cb V E)) : MOut V E :=
+  if emits o (es p) now r then
+    let e' := commit (storeValue (es p) r) now r
+    let c := runCbs o caught p (setE es p e') cbs
+    ⟨c.es, c.msgs ++ (if c.completed then [(p, mkMsg (c.es p))] else [])⟩
+  else ⟨setE es p (storeValue (es p) r), []⟩
+
 /-! ### event producers -/
 
 /-- outcome of the driver's `read_<p>` -/
